@@ -23,12 +23,13 @@ struct Obs {
 
 pub fn run(ctx: &Ctx) -> (Report, Meta) {
     let meta = Meta::new(
-        "for each base configuration (bounded problem x 6 methods x tolerances x direction x optional first_step/max_step/max_steps x analytic/FD Jacobian) the 8 subsets of {t_eval, dense_output, non-terminal events} are run plus one repetition; compared bitwise: hash of the complete ode call log (t and y bit patterns of every stepper evaluation, accepted and rejected attempts), evaluation counts, all step statistics, status, the reported accepted-step sequence (runs without t_eval), requested-time values (runs with t_eval), sol(t) of dense runs; non-trivial = base configuration with >= 3 accepted steps (distinct by scenario hash)",
+        "for each base configuration (bounded problem x 6 methods x tolerances x direction x optional first_step/max_step/max_steps x analytic/FD Jacobian) the 8 subsets of {t_eval, dense_output, non-terminal events} are run plus one repetition; compared bitwise: hash of the complete ode call log (t and y bit patterns of every stepper evaluation, accepted and rejected attempts), evaluation counts, all step statistics, status, the reported accepted-step sequence (runs without t_eval), requested-time values (runs with t_eval), sol(t) of dense runs; low-level builders: dense on/off and callback present/absent twins (callback sequence, ode-log hash, status, statistics); non-trivial = base configuration with >= 3 accepted steps (distinct by scenario hash)",
     )
     .assume("64-bit FNV hash over all bit patterns of the ode log; collisions negligible")
     .floor("option_sets_compared", 2000)
     .floor("base_configs_with_rejections", 30)
-    .floor("low_level_dense_toggle_pairs", 500);
+    .floor("low_level_dense_toggle_pairs", 500)
+    .floor("low_level_callback_free_twins", 500);
     let g = GenOpts {
         stiff_for_implicit: true,
         allow_min_step: true,
@@ -106,10 +107,21 @@ pub fn run(ctx: &Ctx) -> (Report, Meta) {
                 if k == 0 {
                     continue;
                 }
-                match rng.below(6) {
+                match rng.below(8) {
                     0 | 1 => te.push(g),
                     2 => te.push(g + dirn * 3e-13 * (1.0 + g.abs())),
                     3 => te.push(g - dirn * 3e-13 * (1.0 + g.abs())),
+                    4 | 5 => {
+                        // 1..12 ulps beyond / before the step end (the sampler treats times within a few ulps of a
+                        // step end specially; that treatment must stay invisible to the stepper)
+                        let ul = 1 + rng.below(12);
+                        let mut v = g;
+                        let up = (rng.bool()) == (dirn > 0.0);
+                        for _ in 0..ul {
+                            v = if up { crate::util::next_up(v) } else { crate::util::next_down(v) };
+                        }
+                        te.push(v);
+                    }
                     _ => {}
                 }
             }
@@ -231,14 +243,26 @@ pub fn run(ctx: &Ctx) -> (Report, Meta) {
         let m = mname(scn.method);
         let mut seqs: Vec<Vec<(u64, u64)>> = Vec::new();
         let mut statuses = Vec::new();
-        for dense in [true, false] {
+        // (ode-log hash, stepper calls, [nfev, njev, nlu, nstep, naccpt, nrejct]) of the dense-off run and of its callback-free twin
+        let mut logs: Vec<(u64, u64, [usize; 6], String)> = Vec::new();
+        for (dense, no_callback) in [(true, false), (false, false), (false, true)] {
             let mut probe = Probe::new(&prob, scn.x0);
             probe.user_jac = scn.user_jac;
             probe.budget = 1_000_000;
-            let lo = LowOpts { dense, first_step: scn.first_step, max_step: scn.max_step, max_steps: scn.max_steps, ..Default::default() };
+            let lo = LowOpts { dense, no_callback, first_step: scn.first_step, max_step: scn.max_step, max_steps: scn.max_steps, ..Default::default() };
             let mut so = RecSolOut::new(Some(&probe));
             match run_low_guarded(scn.method, &probe, scn.x0, &scn.y0, scn.xend, &scn.rtol, &scn.atol, &lo, &mut so) {
                 LowOutcome::Ok(ir) => {
+                    if !dense {
+                        let l = probe.take_log();
+                        logs.push((l.ode_hash, l.n_ode, [ir.evals.ode, ir.evals.jac, ir.evals.lu, ir.steps.total, ir.steps.accepted, ir.steps.rejected], format!("{:?}", ir.status)));
+                    }
+                    if no_callback {
+                        if !so.cbs.is_empty() {
+                            rep.violate(&format!("C12/callback_free_twin/{}/low_level", m), "a SolOut that was not passed to the solver was called".into(), &case_id, scn.describe(&prob));
+                        }
+                        continue;
+                    }
                     statuses.push(format!("{:?}/{}/{}", ir.status, ir.steps.accepted, ir.steps.rejected));
                     seqs.push(so.cbs.iter().map(|c| (c.x.to_bits(), hash(&c.y))).collect());
                 }
@@ -252,8 +276,22 @@ pub fn run(ctx: &Ctx) -> (Report, Meta) {
                 }
             }
         }
-        rep.evals(2);
+        rep.evals(3);
         rep.count("low_level_dense_toggle_pairs", 1);
+        // the run made without a callback is the same integration as the one observed by a callback that always
+        // answers Continue: same sequence of right-hand-side calls (accepted and rejected attempts), status, statistics
+        if logs.len() == 2 {
+            rep.count("low_level_callback_free_twins", 1);
+            let (a, b) = (&logs[0], &logs[1]);
+            if a.0 != b.0 || a.1 != b.1 || a.2 != b.2 || a.3 != b.3 {
+                rep.violate(
+                    &format!("C12/callback_free_twin/{}/low_level", m),
+                    format!("without a callback: status {}, {} stepper calls, [nfev,njev,nlu,nstep,naccpt,nrejct] = {:?}; with a callback that always continues: status {}, {} calls, {:?}; ode-log hashes {:x} vs {:x}", b.3, b.1, b.2, a.3, a.1, a.2, b.0, a.0),
+                    &case_id,
+                    scn.describe(&prob),
+                );
+            }
+        }
         if seqs[0] != seqs[1] || statuses[0] != statuses[1] {
             let first = seqs[0].iter().zip(&seqs[1]).position(|(a, b)| a != b);
             rep.violate(&format!("C12/dense_toggle_changes_steps/{}/low_level", m), format!("dense_output on/off: {} vs {} callbacks, statuses {} vs {}, first differing callback {:?}", seqs[0].len(), seqs[1].len(), statuses[0], statuses[1], first), &case_id, scn.describe(&prob));
